@@ -35,8 +35,8 @@ def kwargs(rng):
     if rng.random() < 0.5:
         kw["label"] = rng.choice(["", "seq1", "A long label"])
     if rng.random() < 0.5:
-        kw["xLim"] = rng.choice([1, 0.5, 0.8])
-        kw["yLim"] = rng.choice([1, 0.5, 0.9])
+        kw["xLim"] = rng.choice([1, 0.5, 0.8, 0.45, 0.675, 0.75, 1.25])
+        kw["yLim"] = rng.choice([1, 0.5, 0.9, 0.45, 0.675, 0.85, 1.05])
     if rng.random() < 0.3:
         kw["legendOn"] = False
     if rng.random() < 0.3:
@@ -93,6 +93,8 @@ def cases(rng, tier):
         entry = rng.choice(["pl_show_multi_phase2", "pl_save_multi_phase2", "pl_show_multi_uversky2", "pl_save_multi_uversky2"])
         a = dict(kw, seqs=seqs, labels=labels, fmt=rng.choice(["png", "pdf"]))
         a.pop("label", None)
+        if labels and rng.random() < 0.5:
+            a["labels_as"] = rng.choice(["tuple", "ndarray"])      # the labels in another sequence type
         lines = [ptok(entry, a)]
         for sq in seqs:
             lines += ["q fplus " + sq, "q fminus " + sq, "q mnc " + sq, "q uversky " + sq]
@@ -104,6 +106,8 @@ def cases(rng, tier):
         a.pop("label", None)
         if rng.random() < 0.5:
             a["as_array"] = True        # coordinates passed as float64 NumPy arrays
+        if labels and rng.random() < 0.5:
+            a["labels_as"] = rng.choice(["tuple", "ndarray"])
         yield Case([ptok(entry, a)], {"kind": "plots-multi", "entry": entry, "args": a})
 
 
@@ -302,6 +306,10 @@ def judge(case, reals, gens, specs):
             k = reals[3][1]
             if not (1 <= k <= 5 and len(d["polygons"]) == 5 and in_poly(d["polygons"][k - 1], got[0][0], got[0][1])):
                 bad("marker %r is not inside the drawn polygon of region %r" % (got[0], k))
+        if ("seqs" in a or "xs" in a) and a.get("labels"):
+            texts = [t[0] for t in d["texts"]]
+            if texts != list(a["labels"]):
+                bad("label texts %r, requested %r (given as %s)" % (texts, a["labels"], a.get("labels_as", "list")))
         lab = a.get("label", "")
         if "seq" in a or "x" in a:
             texts = [t[0] for t in d["texts"]]
